@@ -337,11 +337,77 @@ pub fn run(ctx: &Ctx) -> Report {
         rep.merge(srep);
         rep.set("threshold_sweep", json!({"ladder_values": lad.len(), "steps_in_documented_range": steps.len(), "kinds": ["step", "joint-near-zero", "joint-near-pi"]}));
     }
+    // --- discontinuity sweep: the pose returned by forward() carries a quaternion whose sign jumps on certain surfaces of
+    // joint space. Along every joint line through a few postures those jumps are located by bisection and the Jacobian is
+    // evaluated with the differencing step straddling the jump.
+    {
+        use rs_opw_kinematics::kinematic_traits::Kinematics;
+        let srobots = [robots[0], robots[robots.len() / 2], robots[robots.len() - 1]];
+        let bases: [[f64; 6]; 3] = [[0.4, -0.9, 0.8, 0.3, -1.2, 0.2], [-2.4, 0.5, -1.9, -1.3, 0.6, 2.5], [1.0, 1.4, 0.3, 2.9, 2.2, -0.7]];
+        let mut found = 0u64;
+        let mut case_no = n + 50_000_000;
+        for p in srobots.iter() {
+            let robot = OPWKinematics::new(*p);
+            let quat = |q: &Joints| robot.forward(q).rotation.into_inner().coords;
+            for b in bases.iter() {
+                let q0 = user_joints(p, b);
+                for ji in 0..6 {
+                    let steps = 1440;
+                    let at = |k: usize| {
+                        let mut q = q0;
+                        q[ji] = -std::f64::consts::PI + 2.0 * std::f64::consts::PI * k as f64 / steps as f64;
+                        q
+                    };
+                    for k in 0..steps {
+                        let (qa, qb) = (at(k), at(k + 1));
+                        if quat(&qa).dot(&quat(&qb)) >= 0.0 {
+                            continue;
+                        }
+                        // bisect the sign jump
+                        let (mut lo, mut hi) = (qa[ji], qb[ji]);
+                        let ref_quat = quat(&qa);
+                        for _ in 0..60 {
+                            let mid = 0.5 * (lo + hi);
+                            let mut qm = q0;
+                            qm[ji] = mid;
+                            if quat(&qm).dot(&ref_quat) >= 0.0 {
+                                lo = mid;
+                            } else {
+                                hi = mid;
+                            }
+                        }
+                        found += 1;
+                        for eps in EPSS {
+                            // the differencing step of joint ji starts just before the jump and ends after it
+                            let mut q = q0;
+                            q[ji] = lo - 0.3 * eps;
+                            case_no += 1;
+                            match eval(p, 0, &q, eps, 0) {
+                                Err(_) => rep.skipped_precondition += 1,
+                                Ok((fails, sig)) => {
+                                    rep.states += 1;
+                                    rep.transitions += 7 + 8 * 4;
+                                    rep.sig(format!("quaternion-sign-jump:{sig}"));
+                                    for (k, dd) in fails {
+                                        rep.fail(format!("{k}/quaternion-sign-jump"), case_no, json!({"params": params_json(p), "variant": 0, "q": nums(&q), "eps": eps, "limits": 0}), dd);
+                                    }
+                                }
+                            }
+                        }
+                    }
+                }
+            }
+        }
+        rep.set("quaternion_sign_jumps_located", json!(found));
+        if found == 0 && rep.fails.is_empty() {
+            rep.machinery_errors.push("no sign jump of the pose quaternion was found along any joint line".into());
+        }
+    }
     rep.traces_validated = rep.states;
     rep.rule = "robots R (unconstrained, and constrained with each joint in turn exactly on its upper / lower limit) x stacks {bare, tool, base, base+tool, tool over parallelogram(J2->J3, 1.0 and 0.5), parallelogram(J1->J6, -0.5) over base} x joint lattice (a third of the postures with whole turns added to some joints) (geometric Jacobian condition number < 1e3, else skipped_precondition) x \
                 differencing steps {1e-7,1e-6,1e-5}; the private matrix is read row by row through torques_from_vector(e_k); oracle: geometric Jacobian from \
                 FK_ref axes/origins within eps*reach + 4e-15*reach/eps; J_geo*velocities(X) = X on the 6 basis twists + 2 mixed; torques = J_geo^T F; \
-                isometry/vector/fixed entry points agree, the isometry also written with the negated quaternion and as a product of two rotations beyond a half turn; threshold sweep: every ladder step inside 1e-7..1e-5, joints a ladder magnitude from 0 / +-pi, all 7 stacks; signature = (stack, condition-number decade)".into();
+                isometry/vector/fixed entry points agree, the isometry also written with the negated quaternion and as a product of two rotations beyond a half turn; discontinuity sweep: sign jumps of forward()'s quaternion located by bisection along 54 joint lines, the differencing step straddling each; threshold sweep: every ladder step inside 1e-7..1e-5, joints a ladder magnitude from 0 / +-pi, all 7 stacks; signature = (stack, condition-number decade)".into();
     rep.set("axes", json!({"robots": robots.len(), "stacks": 7, "eps": EPSS.to_vec(), "theta_axis_sizes": ax.iter().map(|a| a.len()).collect::<Vec<_>>() }));
     rep.assumptions.push("a linear map is decided on a basis: the 6 unit twists/wrenches are exhaustive for the velocity/torque clauses at each lattice posture".into());
     rep
